@@ -62,6 +62,7 @@ struct GenCtx {
   std::vector<int> label_used;
   int budget = 0;                  // statements left for this routine
   bool in_ite = false;
+  int in_slot = 0;   // inside text that a user macro must match as a slot (<V>, <P>, <ARGS>)
 };
 
 std::string pick_var(GenCtx &c) { return c.vars[c.rng.below(c.vars.size())]; }
@@ -103,8 +104,13 @@ Val gen_val(GenCtx &c, int depth) {
     const Routine *res = nullptr;
     for (int i = 0; i < lim; i++) if (c.ast.defs[i].name == r.name) res = &c.ast.defs[i];
     int n = res->has_in ? (int)res->params.size() : 0;
-    for (int i = 0; i < n; i++) v.args.push_back(gen_val(c, depth + 1));
+    // the macro detector's grammar has no empty argument list: a call without arguments cannot stand inside a
+    // macro slot (observation, see DESIGN.md); keep such calls out of slots
+    if (n == 0 && c.in_slot) { v.k = Val::VAR; v.callee.clear(); v.var = pick_var(c); return v; }
     if ((c.gp.macros & MF_CALL) && n >= 1 && c.rng.chance(1, 2)) v.sugar = 1;
+    if (v.sugar) c.in_slot++;
+    for (int i = 0; i < n; i++) v.args.push_back(gen_val(c, depth + 1));
+    if (v.sugar) c.in_slot--;
     return v;
   }
   if (w < call_w + 28) { v.k = Val::CONST; v.c = pick_const(c); return v; }
@@ -158,11 +164,11 @@ Stmt gen_stmt(GenCtx &c, int depth) {
   }
   if ((gp.macros & MF_ITE) && can_nest && w < 52) {
     s.k = Stmt::ITE;
-    bool save = c.in_ite; c.in_ite = true;
+    bool save = c.in_ite; c.in_ite = true; c.in_slot++;
     s.val = gen_val(c, 1);
     s.body = gen_block(c, depth + 1, 2);
     s.body2 = gen_block(c, depth + 1, 2);
-    c.in_ite = save;
+    c.in_ite = save; c.in_slot--;
     return s;
   }
   s.k = Stmt::ASSIGN; s.var = pick_var(c); s.val = gen_val(c, 0);
@@ -179,26 +185,42 @@ std::vector<Stmt> gen_block(GenCtx &c, int depth, int maxn) {
   return b;
 }
 
-// collect pointers to all statements of a routine in program order
-void collect(std::vector<Stmt> &b, std::vector<Stmt *> &out) {
-  for (auto &s : b) { out.push_back(&s); collect(s.body, out); collect(s.body2, out); }
+// collect pointers to all statements of a routine in program order, with the loops that enclose each
+struct Placed { Stmt *s; std::vector<const Stmt *> loops; };
+void collect(std::vector<Stmt> &b, std::vector<Placed> &out, std::vector<const Stmt *> &path) {
+  for (auto &s : b) {
+    out.push_back({&s, path});
+    bool loop = s.k == Stmt::LOOP || s.k == Stmt::WHILE;
+    if (loop) path.push_back(&s);
+    collect(s.body, out, path);
+    collect(s.body2, out, path);
+    if (loop) path.pop_back();
+  }
 }
 
 void place_labels(GenCtx &c, std::vector<Stmt> &body) {
-  std::vector<Stmt *> all;
-  collect(body, all);
+  std::vector<Placed> all;
+  std::vector<const Stmt *> path;
+  collect(body, all, path);
   for (int l = 0; l < c.nlabels; l++) {
     std::string name = "l" + std::to_string(l);
     // first statement that jumps to it, to bias unconditional jumps forward
     int first_ref = -1; bool uncond = false;
     for (size_t i = 0; i < all.size(); i++)
-      if ((all[i]->k == Stmt::GOTO || all[i]->k == Stmt::IF) && all[i]->target == name) { first_ref = (int)i; uncond = all[i]->k == Stmt::GOTO; break; }
+      if ((all[i].s->k == Stmt::GOTO || all[i].s->k == Stmt::IF) && all[i].s->target == name) { first_ref = (int)i; uncond = all[i].s->k == Stmt::GOTO; break; }
     size_t pos;
-    if (first_ref >= 0 && first_ref + 1 < (int)all.size() && c.rng.chance(uncond ? 17 : 10, 20))
+    // a third of the labels go into a loop body that does not enclose the jump (jump into a loop)
+    std::vector<size_t> into;
+    if (first_ref >= 0)
+      for (size_t i = 0; i < all.size(); i++)
+        for (auto *lp : all[i].loops)
+          if (std::find(all[(size_t)first_ref].loops.begin(), all[(size_t)first_ref].loops.end(), lp) == all[(size_t)first_ref].loops.end()) { into.push_back(i); break; }
+    if (!into.empty() && c.rng.chance(1, 3)) pos = into[c.rng.below(into.size())];
+    else if (first_ref >= 0 && first_ref + 1 < (int)all.size() && c.rng.chance(uncond ? 17 : 10, 20))
       pos = (size_t)c.rng.range(first_ref + 1, (long)all.size() - 1);
     else
       pos = c.rng.below(all.size());
-    all[pos]->labels.push_back(name);
+    all[pos].s->labels.push_back(name);
   }
   // the macro detector grammar allows a single label in front of a statement; keep that inside ITE branches
   std::function<void(std::vector<Stmt> &, bool)> fix = [&](std::vector<Stmt> &b, bool inside) {
@@ -409,6 +431,7 @@ struct Printer {
       tok("#0"); tok(":="); tok("$0"); tok(";"); tok("$0"); tok(":="); tok("$1"); tok(";"); tok("$1"); tok(":="); tok("#0");
       K("ENDDEFINE");
     }
+    if (m & MF_NONLR) { nl(); K("DEFINE"); tok("tail", 2); tok("<ID>"); tok("<P>"); K("AS"); tok("$1"); K("ENDDEFINE"); }
     if (m & MF_ITE) {
       nl(); K("DEFINE"); K("IF"); tok("<V>"); K("THEN"); tok("<P>"); tok("ELSE", 2); tok("<P>"); K("END"); K("AS"); nl();
       tok("#0"); tok(":="); tok("0", 1); tok(";"); tok("#1"); tok(":="); tok("1", 1); tok(";"); tok("#2"); tok(":="); tok("$0"); tok(";"); nl();
@@ -791,7 +814,7 @@ std::vector<Ast> ast_reductions(const Ast &a0) {
   }
   for (auto &r : a.defs) if (r.share) { int k = r.share; r.share = 0; emit(); r.share = k; }
   if (a.macros) {
-    for (unsigned bit = 1; bit <= 8; bit <<= 1) if (a.macros & bit) { a.macros &= ~bit; emit(); a.macros |= bit; }
+    for (unsigned bit = 1; bit <= 16; bit <<= 1) if (a.macros & bit) { a.macros &= ~bit; emit(); a.macros |= bit; }
   }
   block_reductions(a.main, emit);
   for (auto &r : a.defs) {
